@@ -133,6 +133,38 @@ def keyedEntries (c : Cfg) : List (Key × Node) → Bool
   | (_, v) :: es => keyed c v && keyedEntries c es
 end
 
+/-! ## identity keys, pair by pair (document level of `--aoh key`) -/
+
+/-- no two records of the list share an identity value -/
+def noIdClash (ka : Key) : List Node → Bool
+  | [] => true
+  | y :: ys => ys.all (fun z => !(keyMatch ka y z)) && noIdClash ka ys
+
+mutual
+/-- **Unique identity keys, at every pair of record lists the comparison of `l` with `r` reaches**:
+following the recursion of `_diff_between` (mapping entries with the same key, list elements at the
+same position), wherever two lists are synchronised by identity key every left record carries the
+identity key (first key of the first right record) and no two right records share an identity value.
+Decidable; its negation is the class of finding C06-K2. -/
+def idOk (c : Cfg) : Node → Node → Bool
+  | .map _ es, .map _ fs => idOkEntries c es fs
+  | .seq _ xs, .seq _ ys =>
+    match listMode c xs ys with
+    | .posDeep => idOkPos c xs ys
+    | .key => xs.all (hasIdentity (keyAttr ys)) && noIdClash (keyAttr ys) ys
+    | _ => true
+  | _, _ => true
+def idOkEntries (c : Cfg) : List (Key × Node) → List (Key × Node) → Bool
+  | [], _ => true
+  | (k, v) :: es, fs =>
+    (match fs.lookup k with
+     | some w => idOk c v w
+     | none => true) && idOkEntries c es fs
+def idOkPos (c : Cfg) : List Node → List Node → Bool
+  | x :: xs, y :: ys => idOk c x y && idOkPos c xs ys
+  | _, _ => true
+end
+
 /-- `a` is `p` or lies below `p` -/
 def covers (p a : Addr) : Prop := ∃ q, a = p ++ q
 
